@@ -129,7 +129,7 @@ ALL = ['C%02d' % i for i in range(1, 21)]
 
 ADDENDA = {
     'C02': ' Props/C02Extra.lean: bufferSize_ge_size(_of_accepted) etc. - every block of every layout of an accepted handler fits the advertised buffer on every rank. Tie by TRANSLATION as well: harness/translate_pure.py regenerates Generated/BlocksGen.lean from the block-arithmetic loop of Layout.__init__ on every run (refuses anything outside its subset) and Props/C02Gen.lean proves the generated definitions equal the model (gen_*_eq) and restates the partition facts on them.',
-    'C03': ' Over-decomposed groupings are part of the correspondence since the repairs F16a/F16b. Props/C03Extra.lean: compatible_sound_differ_by_one, unmatched_dimension_not_distributed, commAxes_length/nodup - soundness of the differ-by-one branch of _compatibleLayout/getAxes.',
+    'C03': ' Over-decomposed groupings are part of the correspondence since the repairs F16a/F16b. Props/C03Bridge.lean (2900 lines of lemmas): the EXECUTABLE crossStep (scatter / gather with padded Allgather and per-rank unpack / equal) is correct for every well-formed swapper and accepted pair (crossStep_correct, crossStep_replicas_identical, crossStep_satisfies_contract), routes mixing handler and cross steps (swapperRoute_correct_*), swapperTranspose_correct for the executable transpose, scatter_after_gather_roundtrip. Props/C03Extra.lean: compatible_sound_differ_by_one, unmatched_dimension_not_distributed, commAxes_length/nodup - soundness of the differ-by-one branch of _compatibleLayout/getAxes.',
     'C04': ' Tie by TRANSLATION as well: harness/translate_pure.py regenerates Generated/GridGen.lean from Grid.setLayout / saveGridValues / freeGridSave / restoreGridValues (statements in source order, over a state that also records which layout self._layout is and what self._f views) on every run and Props/C04Gen.lean proves gen_step_eq / gen_run_eq (generated state machine = model on every reachable state, view invariant kept) and source_history_behaves_like_global_array.',
     'C01': ' Since the repair of F15 over-decomposed configurations (ranks owning empty blocks) are part of the correspondence.',
     'C20': ' Tie by TRANSLATION as well: harness/translate_pure.py regenerates Generated/ProcGridGen.lean (both functions of process_grid.py, every while loop a fuel-recursive function over the record of all locals, / in exact rationals) on every run and Props/C20Gen.lean proves gen_from_max_eq / gen_procGridFromMax_eq / gen_procGrid_eq (generated = model for all inputs with max_proc1, size >= 1 and every sufficient fuel) and gen_procgrid_spec (termination, validity, RuntimeError iff no factorisation, stated on the generated function).',
